@@ -127,6 +127,24 @@ Proof.
   rewrite (D_step _ Hl). lia.
 Qed.
 
+Lemma rule_code_pair_tok_depth st m st' o : cache_ok st -> i_level st <? ic_maxnest cfg = true ->
+  rule_code_pair_tok TK st m false = inr (st', o) -> (idepth st' <= Nat.max (idepth st) (D (i_level st)))%nat.
+Proof.
+  intros Hc Hl. unfold rule_code_pair_tok.
+  destruct (irest st) as [|rest]; cbn [bind]; [discriminate|]. destruct rest as [|ch t]; [discriminate|].
+  destruct (negb (ch =? m)); [intros H; injection H as <- _; lia|].
+  destruct (match rev (trailing_text_get st) with x :: _ => x =? m | [] => false end); [intros H; injection H as <- _; lia|].
+  destruct (get_bt st m) as [scanned maxv]. destruct (_ && _); [intros H; injection H as <- _; lia|].
+  destruct (code_scan _ _ _ _ _ _) as [|[o1 mv]]; cbn [bind]; [discriminate|]. cbn [fst snd].
+  destruct o1 as [[ms me]|]; [|intros H; injection H as <- _; unfold idepth; cbn [i_node set_bt iset_bt]; lia].
+  destruct (isl st _ ms) as [|raw]; cbn [bind]; [discriminate|]. cbv zeta.
+  destruct (iget_map st (i_pos st) me) as [|mp]; cbn [bind]; [discriminate|].
+  match goal with |- bind (TK ?inner) _ = _ -> _ => destruct (TK inner) as [|inner'] eqn:Et end; cbn [bind]; [discriminate|].
+  apply TK_depth in Et; [|exact Hc]. unfold idepth in Et. cbn [i_node i_level set_bt iset_bt] in Et. rewrite depth_mk0 in Et.
+  destruct (_ <=? me); [|discriminate]. intros H. injection H as <- _. unfold idepth. cbn [i_node set_bt iset_bt].
+  rewrite depth_push, (D_step _ Hl). lia.
+Qed.
+
 Lemma run_rule_depth r st st' o : cache_ok st -> i_level st <? ic_maxnest cfg = true ->
   negb ((r =? I_EMPH_STAR) || (r =? I_EMPH_UNDER) || (r =? I_STRIKE)) = true ->
   run_rule cfg TK SK r st false = inr (st', o) -> (idepth st' <= Nat.max (idepth st) (D (i_level st)))%nat.
@@ -155,6 +173,7 @@ Proof.
   destruct (r =? I_HTMLINLINE); [intros H; apply W; eapply rule_html_inline_depth; exact H|].
   destruct (r =? I_CUSTOM_LETTER); [intros H; apply W; eapply rule_custom_inline_depth; exact H|].
   destruct (r =? I_CUSTOM_PUNCT); [intros H; apply W; eapply rule_custom_inline_depth; exact H|].
+  destruct (r =? I_CUSTOM_PAIR); [apply rule_code_pair_tok_depth; assumption|].
   exact Dn.
 Qed.
 
